@@ -295,11 +295,24 @@ the specification computes from the definition and the step's variables, and re-
 theorem shootStep_copy (c : Cfg) (gun : Nat) (scn : String) (cd : CallDef) (w : World) (sv : ShotVars)
     (hd : namesDistinct c.calls = true) (hw : WOk c w) (hcd : cd ∈ c.calls)
     (hm1 : (cd.pre && c.users.isEmpty) = false) :
-    ∃ w', WOk c w' ∧ w'.iters = (stepVars c cd w.iters sv).2 ∧ w'.cells = assocSet w.cells cd.name (tmplsOf cd) ∧
+    ∃ w', WOk c w' ∧ w'.iters = (stepVars c cd w.iters sv).2 ∧
       shootStep .copy c gun scn cd w sv =
         (if (specStep c scn cd (stepVars c cd w.iters sv).1).2.1
           then .ok w' (svNext cd (specStep c scn cd (stepVars c cd w.iters sv).1).2.2 sv) (specStep c scn cd (stepVars c cd w.iters sv).1).1
           else .failed w' (specStep c scn cd (stepVars c cd w.iters sv).1).1) := by
+  have hsv : stepVars c cd w.iters sv =
+      (let owner := iterOwner c cd
+       let drawn := (assocGet w.iters owner).getD 0
+       let ui : Option String × List (String × Nat) :=
+         if cd.pre then (some (c.users.getD (drawn % c.users.length) ""), assocSet w.iters owner (drawn + 1)) else (none, w.iters)
+       (mkVars ui.1 (svFor cd sv) c.g, ui.2)) := rfl
+  -- a template that cannot be parsed / executed: only the iterator moves
+  by_cases hbad : callBad cd = true
+  · refine ⟨{ w with iters := (stepVars c cd w.iters sv).2 }, ⟨hw.1, hw.2⟩, rfl, ?_⟩
+    unfold shootStep specStep
+    simp only [hm1, hbad, Bool.false_eq_true, if_false, if_true]
+    simp [hsv]
+  have hbad' : callBad cd = false := by simpa using hbad
   have hcells : assocGet w.cells cd.name = some (tmplsOf cd) := hw.1 cd hcd
   have hcache : CacheOk (tmplsOf cd) ((assocGet w.caches (gun, scn, cd.name)).getD []) := by
     cases hg : assocGet w.caches (gun, scn, cd.name) with
@@ -336,15 +349,9 @@ theorem shootStep_copy (c : Cfg) (gun : Nat) (scn : String) (cd : CallDef) (w : 
         have hget' : assocGet (assocSet w.caches (gun, scn, cd.name) cache') (g', s', cd'.name) = some cache := hget
         rw [assocGet_set_ne _ _ _ _ hk'] at hget'
         exact hw.2 g' s' cd' cache hcd' hget'
-  refine ⟨w', hw', rfl, rfl, ?_⟩
-  have hsv : stepVars c cd w.iters sv =
-      (let owner := iterOwner c cd
-       let drawn := (assocGet w.iters owner).getD 0
-       let ui : Option String × List (String × Nat) :=
-         if cd.pre then (some (c.users.getD (drawn % c.users.length) ""), assocSet w.iters owner (drawn + 1)) else (none, w.iters)
-       (mkVars ui.1 (svFor cd sv) c.g, ui.2)) := rfl
+  refine ⟨w', hw', rfl, ?_⟩
   unfold shootStep specStep
-  simp only [hm1, Bool.false_eq_true, if_false]
+  simp only [hm1, hbad', Bool.false_eq_true, if_false]
   by_cases hpre : cd.pre = true
   · simp only [hpre, if_true] at hsv ⊢
     simp only [hcells, Option.getD_some]
@@ -415,7 +422,7 @@ theorem shootSteps_copy (c : Cfg) (gun : Nat) (scn : String) (hd : namesDistinct
     · simp [hm] at h
     · have hm' : (cd.pre && c.users.isEmpty) = false := by simpa using hm
       simp only [hm', Bool.false_eq_true, if_false] at h
-      obtain ⟨w', hw', hit, _, hstep⟩ := shootStep_copy c gun scn cd w sv hd hw hcd hm'
+      obtain ⟨w', hw', hit, hstep⟩ := shootStep_copy c gun scn cd w sv hd hw hcd hm'
       unfold shootSteps
       rw [hstep]
       by_cases hok : (specStep c scn cd (stepVars c cd w.iters sv).1).2.1 = true
@@ -474,25 +481,30 @@ def renderedPayload (cd : CallDef) (vars : Vars Char) : List (String × PVal) :=
 def renderedMd (cd : CallDef) (vars : Vars Char) : List (String × String) :=
   cd.md.map fun (k, t) => (k, String.ofList (render vars t))
 
-theorem specStep_unknown (c : Cfg) (scn : String) (cd : CallDef) (vars : Vars Char) (h : lookupMethod cd.call = none) :
+theorem specStep_bad (c : Cfg) (scn : String) (cd : CallDef) (vars : Vars Char) (h : callBad cd = true) :
     specStep c scn cd vars = ({ calls := [], samples := [sampleText (scn ++ ".t" ++ cd.name) 0] }, false, none) := by
   simp [specStep, h]
 
+theorem specStep_unknown (c : Cfg) (scn : String) (cd : CallDef) (vars : Vars Char) (h : lookupMethod cd.call = none) :
+    specStep c scn cd vars = ({ calls := [], samples := [sampleText (scn ++ ".t" ++ cd.name) 0] }, false, none) := by
+  by_cases hb : callBad cd = true <;> simp [specStep, h, hb]
+
 theorem specStep_illtyped (c : Cfg) (scn : String) (cd : CallDef) (vars : Vars Char) (m : String) (fs : List Field)
+    (hb : callBad cd = false)
     (h : lookupMethod cd.call = some (m, fs)) (h2 : decodeFields fs (renderedPayload cd vars) = none) :
     specStep c scn cd vars = ({ calls := [], samples := [sampleText (scn ++ ".t" ++ cd.name) 400] }, false, none) := by
   simp only [renderedPayload] at h2
-  simp [specStep, h, h2]
+  simp [specStep, h, h2, hb]
 
 theorem specStep_call (c : Cfg) (scn : String) (cd : CallDef) (vars : Vars Char) (m : String) (fs : List Field)
-    (vals : List (String × Option String))
+    (vals : List (String × Option String)) (hb : callBad cd = false)
     (h : lookupMethod cd.call = some (m, fs)) (h2 : decodeFields fs (renderedPayload cd vars) = some vals) :
     (specStep c scn cd vars).1 =
         { calls := [callText m (canonMsg fs vals) (mdText (renderedMd cd vars)) c.tmo],
           samples := [sampleText (scn ++ ".t" ++ cd.name) (serverCode m (canonMsg fs vals))] } ∧
       (specStep c scn cd vars).2.1 = true := by
   simp only [renderedPayload] at h2
-  simp [specStep, h, h2, renderedMd]
+  simp [specStep, h, h2, renderedMd, hb]
 
 theorem lookupMethod_some (call m : String) (fs : List Field) (h : lookupMethod call = some (m, fs)) :
     (m, fs) ∈ methodTable ∧ call = svc ++ "." ++ m := by
